@@ -1,0 +1,10 @@
+//go:build verif
+
+package minijson
+
+// VerifIsNumeric exposes isNumeric (which captures WriteInferred writes as bare
+// JSON numbers) to a verification harness.
+func VerifIsNumeric(s string) bool { return isNumeric(s) }
+
+// VerifEscape exposes escape (the JSON string escaping of keys and values).
+func VerifEscape(s string) string { return escape(s) }
